@@ -417,3 +417,42 @@ def st_tip908_transactions():
 
 def ss_new():
     return dict(ensures=[C("from", "res@ == map_of_pairs(stakes@)", "C13", "C08")])
+
+# ---- dependency functions verified from the registry source (melstructs 0.3.3, pinned by Cargo.lock): the SAME contract is proved in
+# unit `depswap` on the text of ~/.cargo/registry/src/*/melstructs-0.3.3/src/melswap.rs and assumed by the units that call it
+import glob as _glob, os
+_cands = sorted(_glob.glob(os.path.expanduser("~/.cargo/registry/src/*/melstructs-0.3.3/src/melswap.rs")))
+DEP_MELSWAP = _cands[0] if _cands else "/nonexistent/melstructs-0.3.3/src/melswap.rs"
+def ps_new_empty():
+    return dict(ensures=[C("empty", "res.lefts == 0 && res.rights == 0 && res.price_accum == 0 && res.liqs == 0", "C15", "C16")])
+def ps_swap_many():
+    return dict(requires=[C("live", "sat128(old(self).lefts + lefts) > 0 && sat128(old(self).rights + rights) > 0",
+                            note="Ratio::new(lefts', rights') and the division by it panic when a side is zero after the inputs are added")],
+                ensures=[C("swap", """({ let l = sat128(old(self).lefts + lefts); let rr = sat128(old(self).rights + rights);
+                   res.0 as int == swap_out(rights as int, rr, l) && res.1 as int == swap_out(lefts as int, l, rr)
+                   && final(self).lefts as int == l - res.0 && final(self).rights as int == rr - res.1 && final(self).liqs == old(self).liqs
+                   && final(self).lefts > 0 && final(self).rights > 0 })""", "C15", "C16", "C01",
+                   note="add both inputs (saturating), pay out floor(in x other/this x 995/1000) of the other side at the single post-deposit price; neither reserve is emptied")])
+def ps_deposit():
+    return dict(requires=[C("live", "old(self).liqs != 0 ==> old(self).lefts > 0 && old(self).rights > 0", note="divides by lefts x rights")],
+                ensures=[C("accum", "final(self).price_accum == old(self).price_accum", "C15"),
+                         C("fresh", "old(self).liqs == 0 ==> res == lefts && final(self).lefts == lefts && final(self).rights == rights && final(self).liqs == lefts", "C15", "C16", "C01"),
+                         C("added", "old(self).liqs != 0 ==> final(self).liqs as int == sat128(old(self).liqs + res) && final(self).lefts as int == sat128(old(self).lefts + lefts) && final(self).rights as int == sat128(old(self).rights + rights)", "C15", "C16", "C01")])
+def ps_implied_price():
+    return dict(requires=[C("live", "self.rights > 0", note="Ratio::new(lefts, rights) panics on a zero right reserve")],
+                ensures=[C("price", "res@ == (num::rational::Frac { n: self.lefts as int, d: self.rights as int })", "C01", "C15")])
+def ps_withdraw():
+    return dict(requires=[C("backed", "old(self).liqs >= liqs && old(self).liqs > 0", note="assert!(self.liqs >= liqs); Ratio::new(liqs, self.liqs) panics on an empty pool")],
+                ensures=[C("retired", "final(self).liqs == old(self).liqs - liqs", "C15", "C16", "C01"),
+                         C("emptied", "final(self).liqs == 0 ==> res.0 == old(self).lefts && res.1 == old(self).rights && final(self).lefts == 0 && final(self).rights == 0", "C15", "C16", "C01"),
+                         C("prorata", """final(self).liqs != 0 ==> res.0 as int == (old(self).lefts * liqs) / (old(self).liqs as int) && res.1 as int == (old(self).rights * liqs) / (old(self).liqs as int)
+                    && final(self).lefts == old(self).lefts - res.0 && final(self).rights == old(self).rights - res.1""", "C15", "C16", "C01")])
+
+_ct = sorted(_glob.glob(os.path.expanduser("~/.cargo/registry/src/*/melstructs-0.3.3/src/transaction.rs")))
+DEP_TX = _ct[0] if _ct else "/nonexistent/melstructs-0.3.3/src/transaction.rs"
+def tx_is_well_formed():
+    return dict(ensures=[C("wf", "res == spec_well_formed(*self)", "C02", "C09", "C01",
+                           note="the bound every later overflow argument starts from: at most 255 outputs, every output value and the fee at most MAX_COINVAL = 2^120")])
+def tx_base_fee():
+    return dict(ensures=[C("fee", "ballast == 0 ==> res.0 == spec_base_fee(*self, fee_multiplier)", "C05",
+                           note="minimum fee = floor(min(weight x multiplier, 2^128-1) / 65536): saturating product, then >> 16")])
